@@ -1,1 +1,272 @@
+(* readers/Spec.v — what C06 / C07 say, independent of the reader code:
+   the expected streams of a file, validity of a file (valid stream, truthful seek table), the
+   abstract cursor every reader must behave like, and how a concrete history is read as a history
+   of that cursor.  Definitions only. *)
 From FlacReaders Require Export Seek.
+Open Scope N_scope.
+
+(* ------------------------------------------------------------------ expected streams *)
+Definition slot_frame (s : slot) : frame := match s with SFrame f => f | SBad g => g end.
+Definition frames_of (l : list slot) : list frame := map slot_frame l.
+
+(* PCM frames in a run of slots *)
+Fixpoint sumlen (l : list slot) : N :=
+  match l with [] => 0 | s :: r => pcm_frames (slot_frame s) + sumlen r end.
+
+(* interleaved samples / bytes / one channel of a run of slots *)
+Definition sdata (l : list slot) : list Z := concat (map interleave (frames_of l)).
+Definition bdata (F : file) (l : list slot) : list N :=
+  ser (f_endian F) (bytes_per_sample (f_bps F)) (sdata l).
+Definition cdata (c : nat) (l : list slot) : list Z := concat (map (fun f => nth c f []) (frames_of l)).
+
+(* the expected interleaved PCM of the file, its serialisation, its channels *)
+Definition pcm (F : file) : list Z := sdata (f_slots F).
+Definition pcm_bytes (F : file) : list N := bdata F (f_slots F).
+Definition chan_pcm (F : file) (c : nat) : list Z := cdata c (f_slots F).
+Definition total_frames (F : file) : N := sumlen (f_slots F).
+
+(* every nch-th sample starting at c: de-interleaving *)
+Fixpoint column (nch c : nat) (fuel : nat) (xs : list Z) : list Z :=
+  match fuel with
+  | O => []
+  | S k => match nth_error xs c with
+           | Some x => x :: column nch c k (skipn nch xs)
+           | None => []
+           end
+  end.
+Definition deinterleave (nch c : nat) (xs : list Z) : list Z := column nch c (length xs) xs.
+
+(* two's complement of s in w bytes, least significant byte first *)
+Fixpoint le_bytes (w : nat) (u : N) : list N :=
+  match w with O => [] | S k => u mod 256 :: le_bytes k (u / 256) end.
+Definition twos_complement (e : endian) (w : N) (s : Z) : list N :=
+  order e (le_bytes (N.to_nat w) (Z.to_N (s mod 2 ^ (8 * Z.of_N w)))).
+Definition fits (bits : Z) (s : Z) : Prop := (- 2 ^ (bits - 1) <= s < 2 ^ (bits - 1))%Z.
+
+(* ------------------------------------------------------------------ valid files *)
+Definition wf_frame (nch : N) (f : frame) : Prop :=
+  lenN f = nch /\ 0 < pcm_frames f /\ Forall (fun c => lenN c = pcm_frames f) f.
+
+Definition good_slot (nch : N) (s : slot) : Prop := exists f, s = SFrame f /\ wf_frame nch f.
+
+(* every defined seek point names a real frame and that frame's first sample; any order, any
+   number of placeholders anywhere, absent or empty table *)
+Definition truthful (F : file) : Prop :=
+  match f_table F with
+  | None => True
+  | Some pts => forall o i, In (Defined o i) pts ->
+                            i <= lenN (f_slots F) /\ o = sumlen (takeN i (f_slots F))
+  end.
+
+Record valid_file (F : file) : Prop := {
+  v_channels : 1 <= f_channels F;
+  v_width : 1 <= bytes_per_sample (f_bps F) <= 4;
+  v_good : Forall (good_slot (f_channels F)) (f_slots F);
+  v_total : match f_total F with Some t => t = total_frames F | None => True end;
+  v_truthful : truthful F;
+  v_range : total_frames F * bytes_per_pcm_frame F < U64;
+  v_usize : f_usize_bits F = 64;
+  v_rev : f_rev F = Repaired }.
+
+(* ------------------------------------------------------------------ the abstract cursor *)
+Section Cursor.
+  Context {A : Type}.
+
+  Inductive aop := ARead (n : N) | AFill | AConsume (k : N) | ANext | ASeek (target : option N).
+  Inductive aout := AData (xs : list A) | AItem (x : option A) | AUnit | APos (p : N) | AFail | APanic.
+
+  (* one call: position before, call, answer, position after *)
+  Record entry := { e_pos : N; e_op : aop; e_out : aout; e_pos' : N }.
+
+  Definition prefix (xs l : list A) : Prop := exists r, l = xs ++ r.
+
+  (* The contract of one call on a cursor over `data`:
+     read(n) hands out at most n of the next items and at least one if n > 0 and any are left;
+     fill shows a non-empty run of the next items (empty only at the end) and does not move;
+     consume(k) moves by k; next hands out the next item or None at the end;
+     a seek to a position inside the stream (Some t) succeeds, answers t where a position is
+     answered, and moves there; a seek outside (None) fails and leaves the cursor where it was or
+     at the end.  Nothing else is allowed: no error, no panic on any other call. *)
+  Definition cur_ok (data : list A) (e : entry) : Prop :=
+    e_pos e <= lenN data /\ e_pos' e <= lenN data /\
+    match e_op e, e_out e with
+    | ARead n, AData xs =>
+        prefix xs (dropN (e_pos e) data) /\ lenN xs <= n /\ e_pos' e = e_pos e + lenN xs /\
+        (0 < n -> e_pos e < lenN data -> xs <> [])
+    | AFill, AData xs =>
+        prefix xs (dropN (e_pos e) data) /\ e_pos' e = e_pos e /\ (e_pos e < lenN data -> xs <> [])
+    | AConsume k, AUnit => e_pos' e = e_pos e + k
+    | ANext, AItem (Some x) => prefix [x] (dropN (e_pos e) data) /\ e_pos' e = e_pos e + 1
+    | ANext, AItem None => e_pos e = lenN data /\ e_pos' e = e_pos e
+    | ASeek (Some t), AUnit => t <= lenN data /\ e_pos' e = t
+    | ASeek (Some t), APos q => q = t /\ t <= lenN data /\ e_pos' e = t
+    | ASeek None, AFail => e_pos' e = e_pos e \/ e_pos' e = lenN data
+    | _, _ => False
+    end.
+
+  (* consecutive calls: each starts where the previous one ended *)
+  Fixpoint chained (p0 : N) (tr : list entry) (p_end : N) : Prop :=
+    match tr with
+    | [] => p0 = p_end
+    | e :: r => e_pos e = p0 /\ chained (e_pos' e) r p_end
+    end.
+
+  (* what a call hands over to the caller for good: the items read, the item iterated, and for
+     consume(k) the first k items of what fill_buf showed *)
+  Definition delivered1 (data : list A) (e : entry) : list A :=
+    match e_op e, e_out e with
+    | ARead _, AData xs => xs
+    | ANext, AItem (Some x) => [x]
+    | AConsume k, AUnit => takeN k (dropN (e_pos e) data)
+    | _, _ => []
+    end.
+  Definition delivered (data : list A) (tr : list entry) : list A := concat (map (delivered1 data) tr).
+
+  Definition is_seek (e : entry) : bool := match e_op e with ASeek _ => true | _ => false end.
+  Definition seek_free (tr : list entry) : Prop := Forall (fun e => is_seek e = false) tr.
+
+  (* the call signals end of stream *)
+  Definition eos (e : entry) : bool :=
+    match e_op e, e_out e with
+    | ARead n, AData [] => 0 <? n
+    | AFill, AData [] => true
+    | ANext, AItem None => true
+    | _, _ => false
+    end.
+  (* calls that must signal end of stream when made at the end *)
+  Definition polls (e : entry) : bool :=
+    match e_op e with ARead n => 0 <? n | AFill | ANext => true | _ => false end.
+
+  (* the data a call shows or hands out (for "the next data is ...") *)
+  Definition shown (e : entry) : list A :=
+    match e_out e with AData xs => xs | AItem (Some x) => [x] | _ => [] end.
+End Cursor.
+Arguments aout : clear implicits.
+Arguments entry : clear implicits.
+
+(* ------------------------------------------------------------------ reading concrete histories *)
+(* logical positions, computed from the reader state *)
+Definition bpos (F : file) (r : byte_reader) : N :=
+  d_cur (br_dec r) * bytes_per_pcm_frame F - lenN (br_buf r).
+Definition spos (F : file) (r : sample_reader) : N :=
+  d_cur (sr_dec r) * f_channels F - lenN (sr_buf r).
+Definition cpos (r : chan_reader) : N :=
+  d_cur (cr_dec r) - (pcm_frames (d_buf (cr_dec r)) - cr_consumed r).
+
+(* where a std::io::Seek request points, for a stream of len bytes with the cursor at pos:
+   inside [0, len] or nowhere.  Current(0) only asks for the position and is always answered;
+   End needs the total to be known; everything else needs a seekable reader. *)
+Definition seek_target (F : file) (len pos : N) (sf : seekfrom) : option N :=
+  let t : Z := match sf with
+               | Start p => Z.of_N p
+               | Current d => Z.of_N pos + d
+               | End_ d => Z.of_N len + d
+               end%Z in
+  let allowed := match sf with
+                 | Current 0%Z => true
+                 | End_ _ => f_seekable F && match f_total F with Some _ => true | None => false end
+                 | _ => f_seekable F
+                 end in
+  if allowed && (0 <=? t)%Z && (t <=? Z.of_N len)%Z then Some (Z.to_N t) else None.
+
+(* sample-based seek to channel-independent sample s, in a stream of `total` PCM frames whose
+   cursor counts `unit` items per PCM frame *)
+Definition sample_target (F : file) (unit s : N) : option N :=
+  if f_seekable F && (s <=? total_frames F) then Some (s * unit) else None.
+
+Definition abs_out_data {A} (o : out) (data_of : out -> option (list A)) (item_of : out -> option (option A)) : aout A :=
+  match data_of o, item_of o with
+  | Some xs, _ => AData xs
+  | None, Some x => AItem x
+  | None, None =>
+      match o with
+      | OUnit => AUnit
+      | OPos p => APos p
+      | OErr _ => AFail
+      | _ => APanic
+      end
+  end.
+
+Definition bytes_of (o : out) : option (list N) := match o with OBytes b => Some b | _ => None end.
+Definition samples_of (o : out) : option (list Z) := match o with OSamples s => Some s | _ => None end.
+Definition item_of (o : out) : option (option Z) := match o with OItem x => Some x | _ => None end.
+Definition chan_of (c : nat) (o : out) : option (list Z) := match o with OChans cs => Some (nth c cs []) | _ => None end.
+Definition no_item {A} (o : out) : option (option A) := None.
+
+Definition abs_b (F : file) (x : byte_reader * bop * out) : entry N :=
+  let '(r, op, o) := x in
+  {| e_pos := bpos F r;
+     e_op := match op with
+             | BRead n => ARead n
+             | BFill => AFill
+             | BConsume k => AConsume k
+             | BSeek sf => ASeek (seek_target F (lenN (pcm_bytes F)) (bpos F r) sf)
+             end;
+     e_out := abs_out_data o bytes_of no_item;
+     e_pos' := bpos F (fst (byte_step F r op)) |}.
+
+Definition abs_s (F : file) (x : sample_reader * sop * out) : entry Z :=
+  let '(r, op, o) := x in
+  {| e_pos := spos F r;
+     e_op := match op with
+             | SRead n => ARead n
+             | SFill => AFill
+             | SConsume k => AConsume k
+             | SNext => ANext
+             | SSeek s => ASeek (sample_target F (f_channels F) s)
+             end;
+     e_out := abs_out_data o samples_of item_of;
+     e_pos' := spos F (fst (sample_step F r op)) |}.
+
+(* the channel reader, seen through channel c *)
+Definition abs_c (F : file) (c : nat) (x : chan_reader * cop * out) : entry Z :=
+  let '(r, op, o) := x in
+  {| e_pos := cpos r;
+     e_op := match op with
+             | CFill => AFill
+             | CConsume k => AConsume k
+             | CSeek s => ASeek (sample_target F 1 s)
+             end;
+     e_out := abs_out_data o (chan_of c) no_item;
+     e_pos' := cpos (fst (chan_step F r op)) |}.
+
+(* every fill_buf of the channel reader returns one slice per channel, all of one length *)
+Definition chan_shape (F : file) (x : chan_reader * cop * out) : Prop :=
+  match snd x with
+  | OChans cs => lenN cs = f_channels F /\ exists k, Forall (fun c => lenN c = k) cs
+  | _ => True
+  end.
+
+(* ------------------------------------------------------------------ the calls the properties quantify over *)
+Definition I64_MIN : Z := (-9223372036854775808)%Z.
+Definition I64_MAX : Z := 9223372036854775807%Z.
+
+Definition seekfrom_ok (sf : seekfrom) : Prop :=
+  match sf with
+  | Start p => p < U64
+  | Current d | End_ d => (I64_MIN <= d <= I64_MAX)%Z
+  end.
+
+(* consume(k <= available); arguments in their Rust types *)
+Definition bop_ok (x : byte_reader * bop * out) : Prop :=
+  match x with
+  | (r, BConsume k, _) => k <= lenN (br_buf r)
+  | (_, BSeek sf, _) => seekfrom_ok sf
+  | _ => True
+  end.
+Definition sop_ok (x : sample_reader * sop * out) : Prop :=
+  match x with
+  | (r, SConsume k, _) => k <= lenN (sr_buf r)
+  | (_, SSeek s, _) => s < U64
+  | _ => True
+  end.
+Definition cop_ok (x : chan_reader * cop * out) : Prop :=
+  match x with
+  | (r, CConsume k, _) => k <= pcm_frames (d_buf (cr_dec r)) - cr_consumed r
+  | (_, CSeek s, _) => s < U64
+  | _ => True
+  end.
+
+Definition no_bseek (ops : list bop) : Prop := Forall (fun o => match o with BSeek _ => False | _ => True end) ops.
+Definition no_sseek (ops : list sop) : Prop := Forall (fun o => match o with SSeek _ => False | _ => True end) ops.
+Definition no_cseek (ops : list cop) : Prop := Forall (fun o => match o with CSeek _ => False | _ => True end) ops.
